@@ -33,7 +33,7 @@ def named_fn(arg, f, hook=None, tag=None):
 
 
 GRAPHS = ["lin_s", "lin_d_s", "gmrf_d_s", "lmrf_d", "two_lik", "nonlin", "xz_s", "laplace_b", "mean_m", "cmrf_d",
-          "lognormal", "lognormal_cov_s", "lin_sqrtprecF", "reg_d", "lin_geom", "sigdep_x", "direct_param"]   # ("reg_s" is buildable but RegularizedGaussian has no log-density: not a C01/C11 graph)
+          "lognormal", "lognormal_cov_s", "lin_sqrtprecF", "reg_d", "lin_geom", "sigdep_x", "direct_param", "cov_sd"]   # ("reg_s" is buildable but RegularizedGaussian has no log-density: not a C01/C11 graph)
 
 
 def build(rec, hook=None):
@@ -168,6 +168,16 @@ def build(rec, hook=None):
         y = Gaussian(M(x), cov=inv("s", "y.cov"), name="y")
         dens = [y, x, s]
         vals = {"y": ydata, "x": xval, "s": pos()}
+        out["models"]["A"] = M
+    elif g == "cov_sd":
+        # one callable with TWO hyper-parameter arguments, which may be fixed in separate steps (functools.partial path)
+        s = Gamma(1.0, 0.1, name="s")
+        d = Gamma(2.0, 0.5, name="d")
+        x = Gaussian(np.zeros(n), 0.8, name="x")
+        M = LinearModel(A)
+        y = Gaussian(M(x), cov=lambda s, d: 1.0 / (s + 0.5 * d), name="y")
+        dens = [y, x, s, d]
+        vals = {"y": ydata, "x": xval, "s": pos(), "d": pos()}
         out["models"]["A"] = M
     elif g == "direct_param":
         # a conditioning variable that IS a parameter left unspecified (mean=None), not a callable: the variable of the
